@@ -1,5 +1,7 @@
 import NeverModel.Lemmas.Frame
 import NeverModel.Props.C09
+import NeverModel.Props.C07
+import NeverModel.Lemmas.VmWOkSound
 /-!
 # C14 — exhausting the VM stack or heap is reported, not suffered
 
@@ -72,5 +74,75 @@ theorem heap_limit_reported {g : Gc} (o : Obj) (inv : Inv g) :
 
 example : ((Vm.new 10 8).sp + 5 ≥ ((Vm.new 10 8).stackSize : Int)) = False := by simp [Vm.new]
 example : (({ Vm.new 10 8 with sp := 4 } : Vm).sp + 5 ≥ (({ Vm.new 10 8 with sp := 4 } : Vm).stackSize : Int)) := by simp [Vm.new]
+
+/-! ## every handler, every step: no store outside the stack array
+
+`WOk` (Lemmas/VmWOk*.lean) is an effect logic over the VM monad that tracks `sp` and the bounds facts a handler has established: a
+completed read of slot `i` gives `0 ≤ i < stackSize`, a passed `vm_check_stack` gives `sp < stackSize`; every `wrSlot` must be
+justified by such facts.  It is discharged for all 222 opcodes. -/
+
+/-- **No handler writes outside the stack.**  For every instruction (all 222 opcodes, any module, any oracle) and every machine state
+with `−1 ≤ sp < stackSize`, the handler never ends in the crash that models a store outside `[0, stackSize)`: each store goes to a
+slot the handler has read before (or to a higher slot than a read one and a lower one than a read or checked one), and every push
+runs `vm_check_stack` — which reports "stack too large" — BEFORE its store.  Nothing else is assumed (no well-formed frames, no
+verified module, `StackOk` not needed) except the two provisos, which are necessary (counterexamples below):
+* `SLIDE q m` with `q, m ≠ 0` needs `−1 ≤ sp − q − m`: its first store goes to `sp − q − m + 1` while its first read is `q` slots
+  higher (`verified_slide_stores_in_frame` discharges this in verified modules);
+* the build-in `read` (id 12) needs `sp + 1 < stackSize`: LIB_MATH_READ in libvm.c does `machine->sp++` and stores WITHOUT
+  `vm_check_stack`, the model mirrors that. -/
+theorem no_handler_writes_outside_the_stack (md : Vm.Module) (ins : Vm.Instr) (orc : Vm.Oracle) (vm : Vm)
+    (h0 : -1 ≤ vm.sp) (h1 : vm.sp < vm.stackSize)
+    (hslide : ins.op = .SLIDE → ins.w0 ≠ 0 → ins.w1 ≠ 0 → -1 ≤ vm.sp - (ins.w0 : Int) - (ins.w1 : Int))
+    (hread : ins.op = .BUILD_IN → ins.w0 = 12 → vm.sp + 1 < vm.stackSize) :
+    (exec md ins orc).run vm ≠ .error (.crash "stack write out of bounds") :=
+  exec_wok md ins orc vm.stackSize vm.sp h0 h1 hslide hread vm rfl rfl
+
+/-- **No step writes outside the stack**: the same for `step` (fetch, `ip++`, handler, exception dispatch), the provisos being about
+the instruction at `ip` -/
+theorem no_step_writes_outside_the_stack (md : Vm.Module) (orc : Vm.Oracle) (vm : Vm) (h0 : -1 ≤ vm.sp) (h1 : vm.sp < vm.stackSize)
+    (hslide : ∀ ins, md.code[vm.ip]? = some ins → ins.op = .SLIDE → ins.w0 ≠ 0 → ins.w1 ≠ 0 → -1 ≤ vm.sp - (ins.w0 : Int) - (ins.w1 : Int))
+    (hread : ∀ ins, md.code[vm.ip]? = some ins → ins.op = .BUILD_IN → ins.w0 = 12 → vm.sp + 1 < vm.stackSize) :
+    (step md orc).run vm ≠ .error (.crash "stack write out of bounds") :=
+  step_wok md orc vm h0 h1 hslide hread
+
+/-- the SLIDE proviso holds in a verified module: at the recorded height `h` of a SLIDE `q m` the certificate has `q + m ≤ h`, or the
+last-call shape `h = q + 1`, `m = nparams + 1`; so the lowest slot stored to is above the argument base `pp` -/
+theorem verified_slide_stores_in_frame (md : Vm.Module) (sm : Ver.Summary) (hm : Ver.HMap) (hv : Ver.verifyH md = .ok (sm, hm))
+    (vm : Vm) (i : Vm.Instr) (hi : md.code[vm.ip]? = some i) (hop : i.op = .SLIDE) (hh : Ver.AtHeight md hm vm) (hpp : -1 ≤ vm.pp) :
+    i.w0 ≠ 0 → i.w1 ≠ 0 → -1 ≤ vm.sp - (i.w0 : Int) - (i.w1 : Int) := by
+  intro hq _
+  obtain ⟨_, hf⟩ := C07.verifyH_ok md sm hm hv
+  obtain ⟨hrun, st, hs, hinv⟩ := hh
+  rcases Ver.frameOkAt_SLIDE hi hs hop (Ver.frame_at hf hi) with ⟨hq', _⟩ | ⟨_, hle, _⟩ | ⟨_, _, hh, hm1, _, _⟩
+  · exact absurd hq' hq
+  · omega
+  · unfold Ver.fnParamsAt at hinv; omega
+
+/-- the `read` proviso is necessary — **a latent defect of the C code**: with `sp = stackSize − 1` the build-in `read` stores one slot
+past the array.  (Not reachable from emitted code: the call sequence pushes the function value, with a check, into that very slot
+just before the CALL pops it.) -/
+theorem read_build_in_pushes_unchecked :
+    (match (exec default ⟨.BUILD_IN, 12, 0, 0⟩ {}).run ({ Vm.new 4 2 with sp := 1 } : Vm) with
+      | .error (.crash w) => w == "stack write out of bounds" | _ => false) = true := by decide +kernel
+
+/-- the SLIDE proviso is necessary: `SLIDE 1 1` at `sp = 0` reads slot 0 and stores to slot −1 -/
+theorem slide_below_the_array_counterexample :
+    (match (exec default ⟨.SLIDE, 1, 1, 0⟩ {}).run ({ Vm.new 4 2 with sp := 0 } : Vm) with
+      | .error (.crash w) => w == "stack write out of bounds" | _ => false) = true := by decide +kernel
+
+/-- the hypotheses are satisfiable: the start machine has `sp = −1`, and a step of a real run from it meets them -/
+example : (-1 : Int) ≤ (Vm.new 8 8).sp ∧ (Vm.new 8 8).sp < ((Vm.new 8 8).stackSize : Int) := by simp [Vm.new]
+example : (step C09.vmExModule {}).run (beginExecute C09.vmExModule (Vm.new 8 8)) ≠ .error (.crash "stack write out of bounds") :=
+  no_step_writes_outside_the_stack _ _ _ (by simp [beginExecute, Vm.new]) (by simp [beginExecute, Vm.new])
+    (fun ins h hop => by
+      have : ins = ⟨.INT, 7, 0, 0⟩ := by
+        have e : C09.vmExModule.code[(beginExecute C09.vmExModule (Vm.new 8 8)).ip]? = some ⟨.INT, 7, 0, 0⟩ := by decide +kernel
+        rw [e] at h; cases h; rfl
+      subst this; cases hop)
+    (fun ins h hop => by
+      have : ins = ⟨.INT, 7, 0, 0⟩ := by
+        have e : C09.vmExModule.code[(beginExecute C09.vmExModule (Vm.new 8 8)).ip]? = some ⟨.INT, 7, 0, 0⟩ := by decide +kernel
+        rw [e] at h; cases h; rfl
+      subst this; cases hop)
 
 end Never.C14
